@@ -399,7 +399,7 @@ def evaluate(cases):
             dims = case['shape'] if case['kind'] == 'convolve' else [case['shape'][ax]] if ax is not None else []
             klass = ('larger' if any(a >= b for a, b in zip(ws, dims)) else 'even' if any(a % 2 == 0 for a in ws) else 'odd')
         tags = dict(kind=case['kind'], dtype=case['dtype'], ndim=len(case['shape']), layout=case.get('layout', 'C'),
-                    mode=case['mode'], path=case.get('_path', 'generic'), kernel=klass)
+                    mode=case['mode'], path=case.get('_path', 'generic'), kernel=klass, values=case.get('values', 'small'))
         if ax is not None:
             tags['axis'] = 'neg' if ax < 0 else 'pos'
         if case.get('_skipped'):
@@ -524,6 +524,35 @@ def cases(rng, tier):
                  mode=rng.choice(MODES), seed=rng.randrange(10 ** 6))
         if fn == 'gaussian1d':
             c.update(dtype='float64', sigma=rng.choice([63.875, 64.0, 64.125]), order=rng.choice([0, 0, 1]))   # lw = 256 / 257: 513 / 515 taps
+        out.append(c)
+    # wide integer dtypes in the upper (and, signed, the lower) half of their range with kernels of sum 0 or 1: the defining sum
+    # is in range and exactly representable (values are multiples of 2^12 for the 64-bit types), but any intermediate formed in
+    # the image's own type (folded symmetric pairs f[x-k] + f[x+k], an integer accumulator) wraps around
+    ZERO_ONE = [[1.0, -2.0, 1.0], [-1.0, 3.0, -1.0], [1.0, -1.0], [-1.0, 0.0, 1.0], [1.0, 0.0, -2.0, 0.0, 1.0],
+                [-1.0, 1.0, 1.0], [2.0, -3.0, 2.0], [0.5, 0.0, 0.5], [1.0, -1.0, -1.0, 1.0], [-2.0, 5.0, -2.0]]
+    for _ in range(dict(quick=60, thorough=600, search=120)[tier]):
+        dtype = rng.choice(['int32', 'int64', 'uint32', 'uint64'])
+        ii = np.iinfo(dtype)
+        unit = 1 if ii.bits == 32 else 2 ** 12
+        top = (int(ii.max) // unit) * unit
+        lowhalf = ii.min < 0 and rng.random() < 0.3
+        base = (-(top - 8 * unit) if lowhalf else top - 8 * unit * rng.choice([1, 1, 2, 16]))
+        w = list(rng.choice(ZERO_ONE))
+        if rng.random() < 0.5:
+            shape = [rng.choice([1, 2, 3]), len(w) + rng.randint(1, 6)]
+            axis = rng.choice([1, -1])
+        else:
+            shape = [len(w) + rng.randint(1, 6)]
+            axis = rng.choice([0, -1])
+        n = int(np.prod(shape))
+        data = [base + (-1 if lowhalf else 1) * unit * rng.randint(0, 7) for _ in range(n)]
+        kind = rng.choice(['convolve1d', 'convolve1d', 'convolve'])
+        c = dict(kind=kind, dtype=dtype, shape=shape, data=data, mode=rng.choice(MODES[:4]),
+                 layout=rng.choice(['C', 'C', 'C', 'F', 'strided']), wlayout='C', values='wide-range')
+        if kind == 'convolve1d':
+            c.update(w=w, axis=axis)
+        else:
+            c.update(w=w, wshape=([1] * (len(shape) - 1)) + [len(w)])
         out.append(c)
     for _ in range(nrand):
         r = rng.random()
